@@ -67,6 +67,11 @@ Gdef(v) == IF v = 1 THEN GdefA ELSE IF v = 2 THEN GdefB ELSE GdefNone
 F0 == <<0, 0>>      FR == <<1, 0>>     FB == <<2, 0>>     FL == <<4, 0>>    FM == <<8, 0>>
 FA1 == <<256, 0>>   FA2 == <<512, 0>>  FS0 == <<16, 0>>   FS1 == <<16, 1>>
 FBM == <<10, 0>>    FLA1 == <<260, 0>> FMS == <<24, 1>>   FBS0 == <<18, 0>>  FMA == <<264, 0>>
+\* markAttachmentType together with useMarkFilteringSet (Dev_MarkFilterPrecedence): set 0 = {4, 9} are the marks
+\* of attachment class 1, set 1 = {5, 13} those of class 2, so FA1S1 / FA2S0 tell the three readings apart,
+\* FA1S0 does not, and ignoreMarks (FMA1S1) supersedes both filters
+FA1S1 == <<272, 1>>  FA2S0 == <<528, 0>>  FA1S0 == <<272, 0>>  FMA1S1 == <<280, 1>>  FBA1S1 == <<274, 1>>
+FlagsCombo == <<FA1S1, FA2S0, FA1S0, FMA1S1, FBA1S1>>
 FlagsAll  == <<F0, FR, FB, FL, FM, FA1, FA2, FS0, FS1, FBM, FLA1, FMS, FBS0, FMA>>
 FlagsMain == <<F0, FM, FA1, FA2, FS0, FS1, FB, FL>>
 FlagsCore == <<F0, FM, FA2, FS0>>
@@ -170,7 +175,7 @@ Ctx12(f, cf, recs) ==
     [] f = 3 -> [fmt |-> 3, input |-> <<Cov(cf, <<1>>), Cov(3 - cf, <<2, 3>>)>>, recs |-> recs]
 FamCtx ==
   LET recsets == << << <<0, 1>> >>, << <<1, 1>> >>, << <<1, 1>>, <<0, 1>> >>, << <<0, 2>> >>, << <<0, 3>>, <<1, 1>> >>,
-                    << <<1, 3>>, <<1, 1>> >>, <<>> >>
+                    << <<1, 3>>, <<1, 1>> >>, <<>>, << <<0, 2>>, <<1, 1>> >> >>
       ps == Triples(<<1, 2, 3>>, FlagsCore, recsets) IN
   [n \in 1 .. Len(ps) |->
      Entry("context",
@@ -304,9 +309,124 @@ FamOrder ==
             request |-> ps[n][1], tuple |-> ps[n][2]],
            <<1, 2, 6>>, Q(3, 4))]
 
+(* F10 flags that set markAttachmentType AND useMarkFilteringSet, over the  *)
+(* lookup types whose matching skips (cursor glyph, ligature components,    *)
+(* chained context, reverse chaining)                                       *)
+FamCombo ==
+  LET fs == FlagsCombo IN
+  Flatten([n \in 1 .. Len(fs) |->
+    << Entry("combo-single", Prog(Par(n), <<Lk(1, fs[n], <<SingleSub(2, Par(n))>>)>>), <<1, 4, 5>>, Q(2, 3)),
+       Entry("combo-ligature", Prog(Par(n + 1), <<MaybeExt(n % 2 = 0, Lk(4, fs[n], <<LigSubA(Par(n))>>))>>),
+             <<1, 2, 4, 5>>, Q(4, 5)),
+       Entry("combo-chain",
+             Prog(Par(n), << Lk(6, fs[n], <<Chain(3, Par(n), << <<1, 1>>, <<0, 2>> >>)>>), Nest1(F0), NestLig(fs[n]), NestMulti >>),
+             <<1, 2, 4, 5>>, Q(4, 5)),
+       Entry("combo-reverse", Prog(Par(n + 1), <<Lk(8, fs[n], <<Rev(Par(n))>>)>>), <<1, 2, 4, 5>>, Q(4, 5)) >>])
+
+(* F11 reverse chaining: two subtables (first match wins), two backtrack    *)
+(* coverages that differ, two lookahead coverages, covered marks, outputs   *)
+(* that later (= further left) positions see as lookahead                   *)
+Rev2Subs(cf) ==
+  << [fmt |-> 1, cov |-> Cov(cf, <<1, 4>>), back |-> <<Cov(cf, <<2>>), Cov(3 - cf, <<1>>)>>, look |-> <<>>, subst |-> <<7, 9>>],
+     [fmt |-> 1, cov |-> Cov(3 - cf, <<1, 2, 4, 5>>), back |-> <<>>,
+      look |-> <<Cov(cf, <<1, 2, 7>>), Cov(cf, <<2, 11>>)>>, subst |-> <<12, 11, 13, 9>>] >>
+FamRev2 ==
+  LET fs == FlagsMain \o <<FMS, FBS0, FA1S1>> IN
+  [n \in 1 .. Len(fs) |->
+     Entry("reverse-two-subtables", Prog(Par(n), <<MaybeExt(n % 4 = 0, Lk(8, fs[n], Rev2Subs(Par(n \div 2))))>>),
+           <<1, 2, 4, 5>>, Q(4, 5))]
+
+(* F12 several context subtables of different formats in one lookup: the    *)
+(* first subtable with a matching rule wins, a matching rule without lookup *)
+(* records (the type 5 / 6 form of `ignore sub`) wins too and consumes its  *)
+(* input                                                                    *)
+CtxSubs ==
+  << [fmt |-> 3, input |-> <<Cov(1, <<1>>), Cov(2, <<2>>), Cov(1, <<2>>)>>, recs |-> <<>>],
+     [fmt |-> 1, cov |-> Cov(2, <<1, 2>>),
+      sets |-> << << [input |-> <<2>>, recs |-> << <<0, 1>> >>] >>, << [input |-> <<1>>, recs |-> <<>>], [input |-> <<1>>, recs |-> << <<1, 1>> >>] >> >>],
+     [fmt |-> 2, cov |-> Cov(1, <<1, 2, 6>>), icd |-> Cd(2, << <<1, 1>>, <<2, 1>>, <<6, 2>> >>),
+      sets |-> << <<>>, << [input |-> <<1>>, recs |-> << <<1, 1>> >>] >>, << [input |-> <<>>, recs |-> << <<0, 1>> >>] >> >>] >>
+ChainSubs ==
+  << [fmt |-> 3, back |-> <<>>, input |-> <<Cov(1, <<1>>)>>, look |-> <<Cov(2, <<2>>)>>, recs |-> <<>>],
+     [fmt |-> 1, cov |-> Cov(1, <<1>>),
+      sets |-> << << [back |-> <<2, 2>>, input |-> <<>>, look |-> <<>>, recs |-> <<>>],
+                     [back |-> <<>>, input |-> <<>>, look |-> <<>>, recs |-> << <<0, 1>> >>] >> >>],
+     [fmt |-> 2, cov |-> Cov(2, <<2, 6>>), bcd |-> Cd(1, << <<1, 1>>, <<7, 1>> >>), icd |-> [fmt |-> 2, ranges |-> <<>>], lcd |-> [fmt |-> 1, start |-> 3, classes |-> <<>>],
+      sets |-> << << [back |-> <<1>>, input |-> <<>>, look |-> <<>>, recs |-> << <<0, 1>> >>],
+                     [back |-> <<0>>, input |-> <<0>>, look |-> <<>>, recs |-> << <<1, 1>> >>] >> >>] >>
+FamSubtables ==
+  LET fs == <<F0, FM, FS1, FA1S1>> IN
+  Flatten([n \in 1 .. Len(fs) |->
+    << Entry("context-subtables", Prog(Par(n), << MaybeExt(n = 2, Lk(5, fs[n], CtxSubs)), Nest1(F0) >>), <<1, 2, 4, 6>>, Q(4, 5)),
+       Entry("chain-subtables", Prog(Par(n + 1), << MaybeExt(n = 3, Lk(6, fs[n], ChainSubs)), Nest1(F0) >>), <<1, 2, 4, 6>>, Q(4, 5)) >>])
+
+(* F13 successive ligations: the second lookup ligates ligatures the first  *)
+(* formed; characters accumulate, skipped and trailing marks get the        *)
+(* component position of the LAST ligation                                   *)
+FamLigSucc ==
+  LET fs == <<FM, FS0, FA1, FA2S0>> IN
+  [n \in 1 .. Len(fs) |->
+     Entry("ligature-successive",
+           [Prog(Par(n), << Lk(4, fs[n], << [fmt |-> 1, cov |-> Cov(Par(n), <<1>>), sets |-> << << [lig |-> 8, comps |-> <<2>>] >> >>] >>),
+                            MaybeExt(n = 2, Lk(4, fs[n], << [fmt |-> 1, cov |-> Cov(1, <<2, 8>>),
+                                                  sets |-> << << [lig |-> 12, comps |-> <<8>>] >>,
+                                                              << [lig |-> 3, comps |-> <<8, 1>>], [lig |-> 14, comps |-> <<1>>] >> >>] >>)) >>)
+              EXCEPT !.features = <<Feat("liga", <<1, 0>>)>>],
+           <<1, 2, 4, 5>>, Q(5, 6))]
+
+(* F14 two / three lookups of ONE feature where the first inserts or deletes *)
+(* glyphs that the context of the next spans                                *)
+FamPipeline ==
+  LET Multi == Lk(2, F0, << [fmt |-> 1, cov |-> Cov(1, <<1, 2, 6>>), seqs |-> << <<1, 4>>, <<>>, <<2, 1>> >>] >>)
+      ChainL(fl) == Lk(6, fl, << [fmt |-> 3, back |-> <<Cov(1, <<1>>)>>, input |-> <<Cov(1, <<1, 2>>), Cov(2, <<1>>)>>, look |-> <<>>,
+                                  recs |-> << <<1, 3>>, <<0, 4>> >>] >>)
+      LigL(fl) == Lk(4, fl, << [fmt |-> 1, cov |-> Cov(2, <<1, 7>>), sets |-> << << [lig |-> 8, comps |-> <<7>>] >>, << [lig |-> 14, comps |-> <<1>>] >> >>] >>)
+      RevL(fl) == Lk(8, fl, << [fmt |-> 1, cov |-> Cov(1, <<1, 4>>), back |-> <<>>, look |-> <<Cov(1, <<1, 7, 8>>)>>, subst |-> <<7, 9>>] >>)
+      Del == Lk(2, F0, << [fmt |-> 1, cov |-> Cov(1, <<4>>), seqs |-> << <<>> >>] >>)
+      fs == <<F0, FM, FS1>> IN
+  Flatten([n \in 1 .. Len(fs) |->
+    << Entry("pipeline-multi-chain-ligature",
+             [Prog(Par(n), << Multi, ChainL(fs[n]), LigL(fs[n]), Nest1(F0), Del >>) EXCEPT !.features = <<Feat("liga", <<2, 0, 1>>)>>],
+             <<1, 2, 6>>, Q(4, 5)),
+       Entry("pipeline-multi-reverse-ligature",
+             [Prog(Par(n + 1), << Multi, RevL(fs[n]), LigL(fs[n]) >>) EXCEPT !.features = <<Feat("liga", <<0, 1, 2>>)>>],
+             <<1, 2, 6>>, Q(4, 5)) >>])
+
+(* F15 alternate substitution requested through several features that share *)
+(* lookups: the alternate index of the last enabled feature listing the      *)
+(* lookup applies; extension around type 3                                  *)
+FamAlt2 ==
+  LET ls == << Lk(3, F0, << [fmt |-> 1, cov |-> Cov(1, <<1, 2>>), alts |-> << <<7, 11, 12>>, <<8, 14>> >>] >>),
+               Ext(Lk(3, FM, << [fmt |-> 1, cov |-> Cov(2, <<1, 4, 7, 11>>), alts |-> << <<2, 6>>, <<9>>, <<10, 15, 1>>, <<2>> >>] >>)) >>
+      fts == << Feat("aalt", <<0, 1>>), Feat("salt", <<1>>), Feat("ss01", <<0>>) >>
+      reqs == << <<Req("aalt", 1)>>, <<Req("aalt", 2), Req("salt", 0)>>, <<Req("salt", 1), Req("aalt", 0)>>,
+                 <<Req("ss01", 2), Req("aalt", 1)>>, <<Req("aalt", 1), Req("ss01", 0), Req("salt", 2)>>, <<Req("salt", 0), Req("ss01", 1)>> >> IN
+  [n \in 1 .. Len(reqs) |->
+     Entry("alternate-shared-lookups",
+           [gdef |-> Gdef(Par(n)), lookups |-> ls, features |-> fts, vars |-> <<>>, request |-> reqs[n], tuple |-> <<>>],
+           <<1, 2, 4>>, 3)]
+
+(* F16 FeatureVariations: four records; a point range, two conditions on    *)
+(* different axes, a condition on an axis the tuple does not have, records  *)
+(* that substitute the same feature, a substitute without lookups           *)
+OrdVars2 == << [conds |-> << <<0, 4096, 4096>> >>, subst |-> << [fi |-> 0, lookups |-> <<1>>] >>],
+               [conds |-> << <<1, 0, 16384>>, <<0, -16384, 4096>> >>, subst |-> << [fi |-> 0, lookups |-> <<3>>], [fi |-> 2, lookups |-> <<2>>] >>],
+               [conds |-> << <<2, 0, 0>> >>, subst |-> << [fi |-> 1, lookups |-> <<0>>] >>],
+               [conds |-> << <<0, 4097, 16384>> >>, subst |-> << [fi |-> 1, lookups |-> <<>>], [fi |-> 3, lookups |-> <<0, 1>>] >>] >>
+FamOrder2 ==
+  LET reqs == << <<Req("calt", 0), Req("liga", 0)>>, <<Req("rlig", 0), Req("ccmp", 0), Req("calt", 0)>> >>
+      tuples == << <<4096, 0>>, <<4095, 0>>, <<4097, 0>>, <<4096, -1>>, <<16384, 16384>>, <<-16384, 16384>>, <<0, 0, 0>>, <<4097>> >>
+      ps == Pairs(reqs, tuples) IN
+  [n \in 1 .. Len(ps) |->
+     Entry("ordering-variations",
+           [gdef |-> Gdef(Par(n)), lookups |-> OrdLookups, features |-> OrdFeatures, vars |-> OrdVars2,
+            request |-> ps[n][1], tuple |-> ps[n][2]],
+           <<1, 2, 6>>, Q(3, 4))]
+
 Programs ==
   FamSingle \o FamSingleMisc \o FamMulti \o FamMultiMisc \o FamAlt \o FamLig \o FamLigLong \o FamCtx \o FamChain
   \o FamInteractions \o FamRev \o FamRevMisc \o FamOrder
+  \o FamCombo \o FamRev2 \o FamSubtables \o FamLigSucc \o FamPipeline \o FamAlt2 \o FamOrder2
 
 ---------------------------------------------------------------------------
 P == Programs[pi]
@@ -386,17 +506,19 @@ SmallStepIsDenotation == Finished => hist = GsubSteps(P.prog, DevStd, inp)
 ---------------------------------------------------------------------------
 (* Generator *)
 UsesMfs(prog) == \E q \in 1 .. Len(prog.lookups) : UseMfs(prog.lookups[q].flag)
-HasNested(prog) == \E q \in 1 .. Len(prog.lookups) : EffType(prog.lookups[q]) \in {5, 6}
+
+RECURSIVE SeqOfSet(_)
+SeqOfSet(S) == IF S = {} THEN <<>> ELSE LET x == CHOOSE y \in S : TRUE IN <<x>> \o SeqOfSet(S \ {x})
 
 EmitCase ==
   Finished =>
     LET std == ObsSteps(P.prog.gdef, hist)
-        alt == IF HasNested(P.prog)
-               THEN ObsSteps(P.prog.gdef, GsubSteps(P.prog, [refilter |-> TRUE, mfsBug |-> FALSE], inp)) ELSE std
+        \* the other conformant readings (Dev_NestedSeqIdxFlag, Dev_MarkFilterPrecedence) that give another result
+        alts == {ObsSteps(P.prog.gdef, GsubSteps(P.prog, d, inp)) : d \in DevChoicesFor(P.prog) \ {DevStd}} \ {std}
         bug == IF UsesMfs(P.prog) THEN ObsSteps(P.prog.gdef, GsubSteps(P.prog, DevMfsBug, inp)) ELSE std
     IN PrintT(<<"CASE", ToJson([p |-> pi, in |-> inp, order |-> Order, steps |-> std,
-                                alts |-> IF alt = std THEN <<>> ELSE <<alt>>,
-                                bugs |-> IF bug = std \/ bug = alt THEN <<>> ELSE <<[name |-> "mfs-hides-non-marks", steps |-> bug]>>,
+                                alts |-> SeqOfSet(alts),
+                                bugs |-> IF bug = std \/ bug \in alts THEN <<>> ELSE <<[name |-> "mfs-hides-non-marks", steps |-> bug]>>,
                                 tags |-> tags])>>)
 
 EmitProg ==
